@@ -669,6 +669,8 @@ pub struct ArmResult {
     pub silent_paths: Vec<(String, usize)>, // paths ending without emit or error: (spelled, consumed)
     pub unrecognised: Vec<String>,
     pub nesting_ops: Vec<String>,
+    /// assignments to `self.at_begin_of_line`: (nesting guard in force, assigned value, line)
+    pub line_start_sets: Vec<(Option<String>, String, usize)>,
 }
 
 fn char_of_pat(p: &syn::Pat) -> Option<Vec<char>> {
@@ -1242,7 +1244,10 @@ fn interp_expr(e: &syn::Expr, mut st: TState, res: &mut ArmResult, guard: &Optio
             res.nesting_ops.push(format!("{}@{}@{}{}", sm::ts(&b.op), st.k, sm::line(syn::spanned::Spanned::span(&b.op)), if st.nz { "/nz" } else { "" }));
             vec![st]
         }
-        syn::Expr::Assign(a) if sm::tsc(&a.left) == "self.at_begin_of_line" => vec![st],
+        syn::Expr::Assign(a) if sm::tsc(&a.left) == "self.at_begin_of_line" => {
+            res.line_start_sets.push((guard.clone(), sm::tsc(&a.right), sm::line(syn::spanned::Spanned::span(&a.eq_token))));
+            vec![st]
+        }
         // a token value at the end of a path of `let tok = match .. { .. }` (see interp_stmt)
         syn::Expr::Path(_) if t.text.starts_with("Tok::") => {
             st.subst.insert("\u{0}value".to_string(), t.text.clone());
@@ -1618,6 +1623,25 @@ pub fn newline_guards(cx: &mut Ctx, rule: &str) {
     }
     if n_emit != 1 {
         cx.fail(rule, &format!("{}/line-break-arm/count", rule), &lx.rel, &format!("{} Newline emits in consume_character (1 expected)", n_emit));
+    }
+    // inside brackets a line break does not start a logical line: `at_begin_of_line = true` (which makes the next
+    // token run the indentation scan, with its tab/space consistency error) is set only under nesting == 0
+    let mut n_sets = 0;
+    for arm in &m.arms {
+        let (_chars, res) = interp_arm(arm);
+        for (g, v, line) in &res.line_start_sets {
+            if v == "true" {
+                n_sets += 1;
+                if g.as_deref() == Some("nesting==0") {
+                    cx.ok(rule, "a line break makes the next line a logical-line start only under nesting == 0");
+                } else {
+                    cx.fail(rule, &format!("{}/line-start-inside-brackets", rule), &format!("{}:{}", lx.rel, line), "consume_character sets at_begin_of_line = true without the nesting == 0 guard: continuation lines inside brackets run the indentation scan (their leading blanks can raise TabsAfterSpaces / change the tokens)");
+                }
+            }
+        }
+    }
+    if n_sets == 0 {
+        cx.fail(rule, &format!("{}/line-start/anchor", rule), &lx.rel, "no arm of consume_character sets at_begin_of_line = true (anchor moved; fail closed)");
     }
     match lexer_method(&lx, "consume_normal") {
         Some(f) => {
